@@ -229,6 +229,33 @@ def _writes_through(repo, cls, fn, params, depth=0, memo=None):
                 if isinstance(c, ast.Call):
                     for p, kind in helper_writes(c):
                         findings.append((s, p, kind))
+                if isinstance(c, ast.Call):
+                    # numpy functions that write into one of their arguments
+                    fname = U(c.func)
+                    tgt_ = None
+                    for k in c.keywords:
+                        if k.arg == 'out':
+                            tgt_ = k.value
+                    if fname in ('np.copyto', 'np.put', 'np.place',
+                                 'np.putmask', 'np.fill_diagonal',
+                                 'np.put_along_axis', 'np.random.shuffle',
+                                 'random.shuffle') and c.args:
+                        tgt_ = c.args[0]
+                    if fname in ('np.ma.fix_invalid', 'np.nan_to_num',
+                                 'np.ma.masked_invalid',
+                                 'np.ma.masked_where') and c.args and any(
+                                     k.arg == 'copy' and isinstance(
+                                         k.value, ast.Constant)
+                                     and k.value.value is False
+                                     for k in c.keywords):
+                        tgt_ = c.args[-1] if fname == 'np.ma.masked_where' \
+                            else c.args[0]
+                    if tgt_ is not None:
+                        a = _aliases(tgt_, alias)
+                        if a and not (fname.startswith('np.ma.masked')):
+                            findings.append((s, alias[a],
+                                             'in-place numpy call %s'
+                                             % fname))
                 if isinstance(c, ast.Call) and isinstance(
                         c.func, ast.Attribute):
                     a = _aliases(c.func.value, alias)
@@ -332,15 +359,25 @@ def _leaky_getters(repo):
         if c.relpath.startswith(SKIP):
             continue
         for m, fn in c.methods.items():
-            if m.startswith('_') or not m.startswith('get_'):
+            if m.startswith('_') or not (m.startswith('get_') or m in (
+                    'parameters', 'outputs')):
                 continue
+            # locals that may name a field (`names = self._names`, possibly
+            # re-bound on another path: may-alias)
+            local_alias = {}
+            for a_ in ast.walk(fn):
+                if isinstance(a_, ast.Assign) and len(a_.targets) == 1 \
+                        and isinstance(a_.targets[0], ast.Name):
+                    fa = _field_alias(a_.value, {})
+                    if fa:
+                        local_alias[a_.targets[0].id] = fa
             for r in ast.walk(fn):
                 if not (isinstance(r, ast.Return) and r.value is not None):
                     continue
                 vals = list(enumerate(r.value.elts)) if isinstance(
                     r.value, ast.Tuple) else [(None, r.value)]
                 for pos, v in vals:
-                    a = _field_alias(v, {})
+                    a = _field_alias(v, local_alias)
                     if not a:
                         continue
                     if cname not in mut:
@@ -486,6 +523,19 @@ def _mutable_fields(repo, cls):
                                                 'append', 'extend') \
                                             and U(d.func.value) == v.id:
                                         out.add('self.' + t.attr)
+                # used as a sequence somewhere in the class: converted
+                # (`np.array(self.f)`, `list(self.f)`), measured or iterated
+                if isinstance(n, ast.Call) and U(n.func) in (
+                        'np.array', 'list', 'len', 'np.asarray', 'enumerate',
+                        'zip') and n.args:
+                    for a0 in n.args:
+                        if isinstance(a0, ast.Attribute) and isinstance(
+                                a0.value, ast.Name) and a0.value.id == 'self':
+                            out.add('self.' + a0.attr)
+                if isinstance(n, ast.For) and isinstance(
+                        n.iter, ast.Attribute) and isinstance(
+                        n.iter.value, ast.Name) and n.iter.value.id == 'self':
+                    out.add('self.' + n.iter.attr)
                 # the class itself copies the field before handing it out
                 # somewhere: it believes the field to be a mutable container
                 if isinstance(n, ast.Return) and isinstance(
